@@ -117,7 +117,7 @@ def region_holds(expr, inputs):
     if not expr:
         return True
     try:
-        return bool(eval(expr, {'__builtins__': {}}, dict(inputs)))
+        return bool(eval(expr, {'__builtins__': {'sorted': sorted, 'len': len, 'set': set, 'all': all, 'any': any}}, dict(inputs)))
     except Exception:
         return False
 
